@@ -64,6 +64,38 @@ impl Clone for Value {
     { unimplemented!() }
 }
 
+impl Value {
+    // accessors of serde_json::Value that a changed body may use: uninterpreted, no guarantees beyond the kind
+    #[verifier::external_body]
+    pub fn as_i64(&self) -> (r: Option<i64>)
+        ensures r is Some ==> self is Number
+    { unimplemented!() }
+    #[verifier::external_body]
+    pub fn as_u64(&self) -> (r: Option<u64>)
+        ensures r is Some ==> self is Number
+    { unimplemented!() }
+    #[verifier::external_body]
+    pub fn as_f64(&self) -> (r: Option<f64>)
+        ensures r is Some ==> self is Number
+    { unimplemented!() }
+    #[verifier::external_body]
+    pub fn is_number(&self) -> (r: bool)
+        ensures r == (self is Number)
+    { unimplemented!() }
+    #[verifier::external_body]
+    pub fn is_string(&self) -> (r: bool)
+        ensures r == (self is String)
+    { unimplemented!() }
+    #[verifier::external_body]
+    pub fn is_array(&self) -> (r: bool)
+        ensures r == (self is Array)
+    { unimplemented!() }
+    #[verifier::external_body]
+    pub fn is_null(&self) -> (r: bool)
+        ensures r == (self is Null)
+    { unimplemented!() }
+}
+
 pub const NULL: Value = Value::Null;
 
 // ---------------------------------------------------------------- assumed contracts on std
